@@ -1,0 +1,15 @@
+//go:build verif
+
+package blobpacked
+
+import "perkeep.org/pkg/blobserver"
+
+// VerifSetMaxZipBlobSize overrides the maximum zip size of a blobpacked
+// storage so that multi-zip packs can be explored with small files.
+func VerifSetMaxZipBlobSize(sto blobserver.Storage, n int) bool {
+	s, ok := sto.(*storage)
+	if ok {
+		s.forceMaxZipBlobSize = n
+	}
+	return ok
+}
